@@ -654,14 +654,22 @@ pub fn tuple_comparisons(rng: &mut Rng, rounds: usize) -> Vec<Tpl> {
                     };
                     let a: Vec<Cv> = kinds.iter().map(|k| mkc(rng, *k)).collect();
                     let mut b = a.clone();
+                    // designed: at p, b is smaller in even rounds and greater in odd rounds; every later component
+                    // points the OTHER way (a guard that tests the wrong component then decides wrongly)
+                    let want_less_at_p = round % 2 == 0;
                     for k in p..arity {
-                        // differs at p (retry until it does), random afterwards
-                        loop {
+                        for _ in 0..200 {
                             b[k] = mkc(rng, kinds[k]);
-                            if k != p || b[k] != a[k] {
+                            let lt = b[k] < a[k];
+                            let gt = b[k] > a[k];
+                            let ok = if kinds[k] == 2 { k != p || b[k] != a[k] } else if k == p { if want_less_at_p { lt } else { gt } } else if want_less_at_p { gt } else { lt };
+                            if ok {
                                 break;
                             }
                         }
+                    }
+                    if p < arity && b[p] == a[p] {
+                        continue;
                     }
                     let ta = format!("({})", a.iter().map(show).collect::<Vec<_>>().join(", "));
                     let tb = format!("({})", b.iter().map(show).collect::<Vec<_>>().join(", "));
